@@ -22,7 +22,7 @@ import (
 
 // tcase is one generated case (also the replay format).
 type tcase struct {
-	Kind    string // "v" validation, "n" normalisation, "p" the identity inside a party (party.go)
+	Kind    string // "v" validation, "n" normalisation, "p" the identity inside a party (party.go), "e" every entry point (entries.go)
 	CC      string // regime
 	Country string // identity country (normalisation)
 	Code    string
@@ -126,14 +126,28 @@ func Run(c *core.Ctx) int {
 	r := c.Rng
 	n := c.Pick(3000, 300000)
 	var cases []tcase
+	valids := map[string][]string{}
 	for _, rg := range rgs {
-		cases = append(cases, genRegime(r, rg, n)...)
+		cs, vs := genRegime(r, rg, n)
+		cases = append(cases, cs...)
+		valids[rg.CC] = vs
 	}
 	cases = append(cases, partyCases(r, cases, c.Pick(20, 400))...)
+	// degenerate and extremal number parts, completed by the specification (boundary.go),
+	// and every entry point on every spelling (entries.go)
+	patterns, degenerate, err := boundaryCodes(c, r, rgs)
+	if err != nil {
+		c.TieBroken("drive:C13/model", err.Error(), nil)
+		return c.Finish("", nil)
+	}
+	for _, rg := range rgs {
+		cases = append(cases, boundaryCases(c, r, rg, patterns[rg.CC], degenerate[rg.CC])...)
+		cases = append(cases, entryCases(c, r, rg, valids[rg.CC], degenerate[rg.CC])...)
+	}
 	return runCases(c, byCC, cases)
 }
 
-func genRegime(r *rand.Rand, rg *regime, n int) []tcase {
+func genRegime(r *rand.Rand, rg *regime, n int) ([]tcase, []string) {
 	var cases []tcase
 	v := func(code, stream string) {
 		cases = append(cases, tcase{Kind: "v", CC: rg.CC, Code: code, Stream: stream})
@@ -233,7 +247,7 @@ func genRegime(r *rand.Rand, rg *regime, n int) []tcase {
 			}
 		}
 	}
-	return cases
+	return cases, valids
 }
 
 type nres struct {
@@ -249,6 +263,7 @@ func runCases(c *core.Ctx, byCC map[string]*regime, cases []tcase) int {
 	vr := make([]vres, len(cases))
 	nr := make([]nres, len(cases))
 	pr := make([]pres, len(cases))
+	er := make([]*eres, len(cases)) // only the "e" cases have one
 	reqs := make([]string, len(cases))
 	for i, t := range cases {
 		if !utf8.ValidString(t.Code) {
@@ -274,6 +289,10 @@ func runCases(c *core.Ctx, byCC map[string]*regime, cases []tcase) int {
 		case "p":
 			pr[i] = goParty(t)
 			reqs[i] = "skip"
+		case "e":
+			o := goEntries(t)
+			er[i] = &o
+			reqs[i] = entryReq(t, o)
 		default:
 			reqs[i] = "skip"
 		}
@@ -290,6 +309,10 @@ func runCases(c *core.Ctx, byCC map[string]*regime, cases []tcase) int {
 		rg := byCC[t.CC]
 		if t.Kind == "p" && utf8.ValidString(t.Code) {
 			judgeParty(c, t, pr[i])
+			continue
+		}
+		if t.Kind == "e" && rg != nil && er[i] != nil && (reqs[i] != "skip" || er[i].Pan != "") {
+			judgeEntries(c, t, *er[i], resp[i])
 			continue
 		}
 		if rg == nil || reqs[i] == "skip" {
